@@ -345,7 +345,6 @@ impl SignatureContext<'_> {
             let uri_path = &self.decoded_uri_path;
             let query_strings: &[(String, String)] = self.qs.as_ref().map_or(&[], AsRef::as_ref);
 
-            // FIXME: throw error if any signed header is not in the request
             // `host` header need to be special handled
 
             // here requires that `auth.signed_headers` is sorted
@@ -360,6 +359,13 @@ impl SignatureContext<'_> {
                 }
                 None
             });
+
+            // every signed header must be in the request
+            for name in &authorization.signed_headers {
+                if headers.get_all(name).next().is_none() {
+                    return Err(invalid_request!("signed header is not in the request: {}", name));
+                }
+            }
 
             let canonical_request = if is_stream {
                 let payload = sig_v4::Payload::MultipleChunks;
